@@ -101,7 +101,7 @@ func (c08) Gen(rng *rand.Rand, tier string, i int) *sim.Scenario {
 			}
 			sc.Calls = []sim.Call{{Entry: "reverse_dns", Addrs: addrs}}
 			for _, a := range addrs {
-				sc.DNS = append(sc.DNS, sim.DNSPlan{Addr: a, Script: []string{pick(rng, "stall", "stall", "slow:4000000:1", "slow:6000000:1", "names:1", "error", "slow:100:2")}})
+				sc.DNS = append(sc.DNS, sim.DNSPlan{Addr: a, Script: []string{pick(rng, "stall", "stall", "slow:4000000:1", "slow:6000000:1", "names:1", dnsErr(rng), "slow:100:2")}})
 			}
 		}
 		sc.Tape = tape(rng, 16)
@@ -134,7 +134,7 @@ func genStallDNS(rng *rand.Rand, sc *sim.Scenario) {
 			return
 		}
 		seen[a] = true
-		sc.DNS = append(sc.DNS, sim.DNSPlan{Addr: dnsKey(mustParse(a)), Script: []string{pick(rng, "stall", "slow:4500000:1", "names:1", "error", "empty")}})
+		sc.DNS = append(sc.DNS, sim.DNSPlan{Addr: dnsKey(mustParse(a)), Script: []string{pick(rng, "stall", "slow:4500000:1", "names:1", dnsErr(rng), "empty")}})
 	}
 	for _, f := range sc.Flows {
 		for _, h := range f.Hops {
@@ -323,7 +323,7 @@ func (c18) Gen(rng *rand.Rand, tier string, i int) *sim.Scenario {
 		c := sim.Call{Entry: "enrich", Target: pick(rng, pool...), Hops: hops}
 		sc.Calls = []sim.Call{c}
 		for _, a := range pool {
-			sc.DNS = append(sc.DNS, sim.DNSPlan{Addr: dnsKey(mustParse(a)), Script: []string{pick(rng, "names:1", "names:2", "names:3", "empty", "error", "slow:200000:1", "slow:6000000:1", "stall"), pick(rng, "names:1", "error")}})
+			sc.DNS = append(sc.DNS, sim.DNSPlan{Addr: dnsKey(mustParse(a)), Script: []string{pick(rng, "names:1", "names:2", "names:3", "empty", dnsErr(rng), "slow:200000:1", "slow:6000000:1", "stall"), pick(rng, "names:1", dnsErr(rng))}})
 		}
 		sc.Note = "family=enrich"
 	case 1: // cache histories
@@ -335,7 +335,7 @@ func (c18) Gen(rng *rand.Rand, tier string, i int) *sim.Scenario {
 			}
 			var script []string
 			for k := 0; k < 12; k++ {
-				script = append(script, pick(rng, "names:1", "names:2", "error", "slow:300000:1", "empty", "names:1"))
+				script = append(script, pick(rng, "names:1", "names:2", dnsErr(rng), "slow:300000:1", "empty", "names:1"))
 			}
 			sc.DNS = []sim.DNSPlan{{Addr: addr, Script: script}}
 			sc.Note = "family=cache-dns"
@@ -366,6 +366,11 @@ func (c18) Gen(rng *rand.Rand, tier string, i int) *sim.Scenario {
 		sc.Note = "family=providers"
 	}
 	return sc
+}
+
+// dnsErr draws one of the failure classes a resolver reports (generic, NXDOMAIN, time-out, temporary).
+func dnsErr(rng *rand.Rand) string {
+	return pick(rng, "error", "error:notfound", "error:notfound", "error:timeout", "error:temporary")
 }
 
 // clientStatus draws any status of the 4xx class (the well-known ones more often), serverStatus any
